@@ -741,7 +741,7 @@ def run(run, replay=None):
         "spheres: n = 2, 3 (4 thorough); arcs: angles on the grid pi/12 (and pi/24 thorough), ties excluded",
         "tolerance 1e-9 (1e-8 for kernels and spheres) times the squared size of the compared rows; SVD/eigh-dependent rows are bound by laws only",
     ]
-    W = 4
+    W = 3 if quick else 4
     if quick:
         jobs = [
             forms_job("forms_n2", 2, 2, 2, rat=True, workers=2),
@@ -750,7 +750,6 @@ def run(run, replay=None):
             forms_job("forms_n3_cong", 3, 1, 2, mincong=2, maxcong=2, formrng=2, workers=W, simulate=30, depth=8),
             forms_job("forms_n3_walk", 3, 1, 0, maxcong=3, formrng=2, workers=W),
             forms_job("forms_sym_n2", 2, 1, 0, formrng=3, workers=2, init="InitSym"),
-            forms_job("forms_sym_n3", 3, 1, 0, formrng=1, workers=2, init="InitSym"),
             forms_job("forms_sym_n3_sim", 3, 1, 3, formrng=1, workers=W, simulate=40, depth=5, init="InitSym"),
             forms_job("forms_n4_sim", 4, 2, 4, supp=3, workers=W, simulate=40, depth=8),
             forms_job("forms_n5_sim", 5, 1, 5, supp=4, mincong=0, maxcong=0, workers=W, simulate=25, depth=8),
@@ -765,7 +764,7 @@ def run(run, replay=None):
             arcs_job("arcs_12", 12, workers=W),
         ]
         single_every = 23
-        parallel = 4
+        parallel = 6
     else:
         jobs = [
             forms_job("forms_n2", 2, 3, 2, rat=True, workers=W),
